@@ -121,7 +121,7 @@ class ByteArray(SimpleModel):
         joiner = type(value)()
         try:
             return (b64decode(joiner.join(value)),)
-        except TypeError:
+        except (TypeError, ValueError):
             raise ValidationError(value)
 
     @classmethod
@@ -142,7 +142,7 @@ class ByteArray(SimpleModel):
             else:
                 return (urlsafe_b64decode(value),)
 
-        except TypeError as e:
+        except (TypeError, ValueError) as e:
             logger.exception(e)
 
             if len(value) < 100:
@@ -156,7 +156,10 @@ class ByteArray(SimpleModel):
 
     @classmethod
     def from_hex(cls, value):
-        return (unhexlify(_bytes_join(value)),)
+        try:
+            return (unhexlify(_bytes_join(value)),)
+        except (TypeError, ValueError):
+            raise ValidationError(value)
 
 
 def _default_binary_encoding(b):
